@@ -507,7 +507,48 @@ pub fn check_value(pid: &str, rv: &RVal, l: &mut Local) {
     }
 }
 
+/// Headers nested through counter-signatures k levels deep (via protected / unprotected, single /
+/// array form).  Only those the subject's own decoder accepts are in C11's domain (an
+/// implementation may bound the nesting; the encoder must then handle everything the decoder does).
+fn nested_chains(ex: &Ex) {
+    let kmax = ex.pick(8usize, 24, 40);
+    ex.bound("c11.nesting", "depth_max", json!(kmax));
+    let mut work: Vec<(usize, bool, bool)> = Vec::new();
+    for k in 1..=kmax {
+        for prot in [true, false] {
+            for array in [true, false] {
+                work.push((k, prot, array));
+            }
+        }
+    }
+    par_partitions(ex.rep, work, |(k, prot, array), l| {
+        let mut h = RHeader { alg: Some(l_int(-7)), ..Default::default() };
+        for _ in 0..*k {
+            let sig = if *prot {
+                RSignature { protected: RProtected { original: None, header: h.clone() }, unprotected: RHeader::default(), signature: vec![1] }
+            } else {
+                RSignature { protected: RProtected::default(), unprotected: h.clone(), signature: vec![2] }
+            };
+            let css = if *array { vec![sig_reps()[0].clone(), sig] } else { vec![sig] };
+            h = RHeader { counter_signatures: css, ..Default::default() };
+        }
+        for rv in [RVal::Header(h.clone()), RVal::Sign1(RSign1 { protected: RProtected { original: None, header: h.clone() }, unprotected: h.clone(), payload: None, signature: vec![] })] {
+            l.state(*k as u64);
+            // domain: the decoder accepts the reference encoding
+            let bytes = encode(&rv).det();
+            match subject::decode(rv.ty(), &bytes) {
+                Outcome::Ok(_) => {
+                    l.count("c11.nesting.within_decoder_limit");
+                    check_value(ex.pid, &rv, l);
+                }
+                _ => l.count("c11.nesting.beyond_decoder_limit"),
+            }
+        }
+    });
+}
+
 pub fn explore(ex: &Ex) {
+    nested_chains(ex);
     let vals = values(ex);
     ex.bound("c11.values", "values", json!(vals.len()));
     let chunks: Vec<&[RVal]> = vals.chunks(256).collect();
@@ -573,26 +614,35 @@ fn colliding_values(full: bool) -> Vec<(RVal, &'static str)> {
     }
     // (b) an extra label equal to a typed label, with the typed field populated / not populated
     let sig = sig_reps()[1].clone();
+    let sigs = sig_reps();
     for populated in [true, false] {
         for typed in 1..=7i64 {
-            let mut h = RHeader::default();
-            if populated {
+            // every shape variant of the populated typed field (they take different encoder branches)
+            let variants: Vec<RHeader> = if !populated {
+                vec![RHeader::default()]
+            } else {
                 match typed {
-                    1 => h.alg = Some(l_int(-7)),
-                    2 => h.crit = vec![l_int(1)],
-                    3 => h.content_type = Some(l_int(0)),
-                    4 => h.key_id = b"k".to_vec(),
-                    5 => h.iv = b"i".to_vec(),
-                    6 => h.partial_iv = b"p".to_vec(),
-                    _ => h.counter_signatures = vec![sig.clone()],
+                    1 => vec![RHeader { alg: Some(l_int(-7)), ..Default::default() }, RHeader { alg: Some(l_text("t")), ..Default::default() }, RHeader { alg: Some(l_int(-65537)), ..Default::default() }],
+                    2 => vec![RHeader { crit: vec![l_int(1)], ..Default::default() }, RHeader { crit: vec![l_int(1), l_text("x")], ..Default::default() }],
+                    3 => vec![RHeader { content_type: Some(l_int(0)), ..Default::default() }, RHeader { content_type: Some(l_text("a/b")), ..Default::default() }],
+                    4 => vec![RHeader { key_id: b"k".to_vec(), ..Default::default() }],
+                    5 => vec![RHeader { iv: b"i".to_vec(), ..Default::default() }],
+                    6 => vec![RHeader { partial_iv: b"p".to_vec(), ..Default::default() }],
+                    _ => vec![
+                        RHeader { counter_signatures: vec![sig.clone()], ..Default::default() },
+                        RHeader { counter_signatures: vec![sigs[0].clone(), sig.clone()], ..Default::default() },
+                        RHeader { counter_signatures: vec![sigs[2].clone(), sigs[0].clone(), sig.clone()], ..Default::default() },
+                    ],
                 }
-            }
-            for extra_pos in [0usize, 1] {
-                let mut rest = vec![(l_int(1000), u(0))];
-                rest.insert(extra_pos, (l_int(typed), NULL));
-                let mut hh = h.clone();
-                hh.rest = rest;
-                v.push((RVal::Header(hh), if populated { "typed-field" } else { "control" }));
+            };
+            for h in variants {
+                for extra_pos in [0usize, 1] {
+                    let mut rest = vec![(l_int(1000), u(0))];
+                    rest.insert(extra_pos, (l_int(typed), NULL));
+                    let mut hh = h.clone();
+                    hh.rest = rest;
+                    v.push((RVal::Header(hh), if populated { "typed-field" } else { "control" }));
+                }
             }
         }
         for typed in 1..=5i64 {
@@ -608,7 +658,22 @@ fn colliding_values(full: bool) -> Vec<(RVal, &'static str)> {
             }
             k.params = vec![(l_int(typed), NULL), (l_int(-1), u(1))];
             // kty is always emitted, so label 1 always collides
-            v.push((RVal::Key(k), if populated || typed == 1 { "typed-field" } else { "control" }));
+            v.push((RVal::Key(k.clone()), if populated || typed == 1 { "typed-field" } else { "control" }));
+            if populated {
+                // further shapes of the typed field, and the clashing extra in last position
+                let mut k2 = k.clone();
+                match typed {
+                    1 => k2.kty = l_text("t"),
+                    3 => k2.alg = Some(l_text("a")),
+                    4 => {
+                        k2.key_ops = vec![l_int(1), l_int(2), l_text("x")];
+                        sort_ops(&mut k2.key_ops);
+                    }
+                    _ => {}
+                }
+                k2.params = vec![(l_int(-1), u(1)), (l_text("z"), u(2)), (l_int(typed), NULL)];
+                v.push((RVal::Key(k2), "typed-field"));
+            }
         }
         for typed in 1..=7i64 {
             let mut c = RClaims::default();
